@@ -343,13 +343,13 @@ def oracle(prop, case, impl):
         if name == 'resize' and w[3] != 'null' and int(w[3]) in BAD_FNS:
             return None
         if i >= len(impl):
-            return ('%s:no-output' % name, 'no output for operation %d (%s)' % (i, op)) if prop == 'C03' else None
+            return ('%s:no-output' % name, 'no output for operation %d (%s)' % (i, op)) if prop in ('C03', 'C16') else None
         line = impl[i]
         if not line.startswith('ok'):
             st = line.split()[0]
             after_clear = ref.cleared[t]
             owner = 'C04' if (after_clear or name in ('foreach', 'foreach_erase', 'foreach_const', 'clear')) else 'C03'
-            if prop != owner:
+            if prop != owner and prop != 'C16':
                 return None
             return ('%s:%s%s' % (name, st, ':after-clear' if after_clear else ''),
                     'operation %d (%s) ended in %s; expected normal return%s' % (
@@ -471,7 +471,23 @@ def oracle(prop, case, impl):
 
         # ---- after every operation
         live = ref.mem[t]
-        if prop == 'C03':
+        if prop == 'C16':
+            if any(e and e[0] == 7 for e in L.events):
+                return ('%s:bad-free' % name, 'operation %d (%s) freed a block that is not live' % (i, op))
+            if name == 'resize' and any(e and e[0] == 4 for e in L.events):
+                # realloc is the first thing resize does: on failure nothing at all may have changed
+                if L.res != [0] or after != before:
+                    return ('resize:failed-not-noop', 'operation %d (%s): the allocation failed but the table changed: %s -> %s' % (
+                        i, op, before, after))
+            if name == 'shrink' and any(e and e[0] == 4 for e in L.events):
+                # shrink_to_fit completes a pending rehash before it reallocates: on failure the bucket
+                # array stays as large as it was and the table keeps heading for the same geometry
+                # (the contents are compared with the membership model below)
+                tg = lambda d: (d['rcount'], d['rhash']) if d['rhash'] != -1 else (d['count'], d['hash'])
+                if after['cap'] != before['cap'] or after['at'] != before['at'] or tg(after) != tg(before):
+                    return ('shrink:failed-not-noop', 'operation %d (%s): the allocation failed but capacity/geometry changed: %s -> %s' % (
+                        i, op, before, after))
+        if prop in ('C03', 'C16'):
             if after['size'] != len(live):
                 return ('%s:size' % name, 'after operation %d (%s) size is %d, %d live elements' % (i, op, after['size'], len(live)))
             for ti in range(nt):
@@ -518,5 +534,67 @@ def oracle(prop, case, impl):
                 if L.H != exp:
                     return ('foreach_erase:hash-calls', 'erase inside foreach made hash calls %s, expected %s' % (L.H, exp))
         prev = L
+    if prop == 'C16' and prev is not None and len(impl) > len(case.ops):
+        # leak audit: one block per table that still owns a bucket array, nothing else
+        exp = sum(1 for tb in prev.tabs if tb['at'])
+        if impl[len(case.ops)] != 'live %d' % exp:
+            return ('end:leak', 'at the end of the script: %s, %d tables own a bucket array' % (impl[len(case.ops)], exp))
     return None
 
+
+
+# -------------------------------------------------------------------- C16
+
+def c16_base_cases(tier, seed):
+    """Base scripts for the allocation-failure aggregator (checks/c16.py): no
+    fail/failfrom headers; every allocating operation of the component
+    (first resize, grow, shrink, function change, resize during a pending
+    rehash, rehash, shrink_to_fit, swap) interleaved with use of the table,
+    continued use afterwards, then cleanup.  The trace ends with the line
+    'live <n>' (number of live allocator blocks).  The first resize of a table
+    is issued twice so that a single injected failure leaves the table usable
+    (the second request is a no-op when the first succeeded)."""
+    k8 = ['keys 0 0 1 2 5 7 8 13', 'ntabs 1']
+    k8b = ['keys 0 0 1 2 5 7 8 13', 'ntabs 2']
+    ins = lambda t, es: ['insert %d %d' % (t, e) for e in es]
+    look = lambda t: ['find %d 0 acc 1' % t, 'find %d 13 null' % t, 'find %d 5 acc' % t, 'size %d' % t, 'foreach_const %d 0' % t]
+    cases = [
+        Case('c16_grow_shrink', k8, ['resize 0 2 1', 'resize 0 2 1'] + ins(0, range(6)) + ['resize 0 7 null', 'find 0 0 null',
+             'insert 0 6', 'resize 0 16 2'] + look(0) + ['erase 0 0', 'resize 0 3 null', 'insert 0 7', 'shrink 0'] + look(0) +
+             ['erase 0 5', 'insert 0 0', 'rehash 0', 'shrink 0'] + look(0) + ['clear 0 1']),
+        Case('c16_pending_resizes', k8, ['resize 0 3 2', 'resize 0 3 2'] + ins(0, range(8)) + ['resize 0 5 1', 'find 0 1 null',
+             'resize 0 9 null', 'erase 0 3', 'resize 0 23 2', 'resize 0 2 null'] + look(0) + ['shrink 0', 'insert 0 3'] + look(0) +
+             ['foreach 0 0', 'clear 0 1']),
+        Case('c16_function_change', k8, ['resize 0 5 1', 'resize 0 5 1'] + ins(0, range(5)) + ['resize 0 5 2', 'find 0 2 null',
+             'resize 0 5 1', 'resize 0 8 2', 'insert 0 5', 'rehash 0'] + look(0) + ['shrink 0', 'resize 0 40 null', 'shrink 0',
+             'erase 0 1'] + look(0) + ['clear 0 0']),
+        Case('c16_swap', k8b, ['resize 0 2 1', 'resize 0 2 1', 'resize 1 3 2', 'resize 1 3 2'] + ins(0, [0, 1, 2]) + ins(1, [3, 4, 5]) +
+             ['resize 0 9 null', 'swap 0 1', 'resize 0 7 1', 'insert 1 6', 'resize 1 1 null', 'shrink 0', 'shrink 1'] + look(0) + look(1) +
+             ['swap 0 1', 'erase 0 6', 'resize 1 16 2', 'insert 1 7'] + look(1) + ['clear 0 1', 'clear 1 1']),
+        Case('c16_clear_reuse', k8, ['resize 0 4 1', 'resize 0 4 1'] + ins(0, range(4)) + ['resize 0 9 2', 'clear 0 1', 'resize 0 3 null',
+             'resize 0 3 null'] + ins(0, range(4)) + ['resize 0 6 1'] + look(0) + ['foreach_erase 0 0', 'shrink 0', 'insert 0 2'] +
+             look(0) + ['clear 0 1']),
+        Case('c16_foreach_erase', k8, ['resize 0 3 1', 'resize 0 3 1'] + ins(0, range(8)) + ['resize 0 16 2', 'foreach_erase 0 3',
+             'resize 0 2 null', 'shrink 0', 'size 0', 'foreach_const 0 0', 'resize 0 5 1', 'foreach_erase 0 0', 'shrink 0',
+             'insert 0 0'] + look(0) + ['clear 0 1']),
+        Case('c16_huge_request', k8, ['resize 0 2 2', 'resize 0 2 2'] + ins(0, range(4)) + ['resize 0 268435457 null'] + look(0) +
+             ['resize 0 1152921504606846975 1', 'insert 0 4', 'resize 0 5 null'] + look(0) + ['shrink 0', 'clear 0 1']),
+        Case('c16_shrink_only', k8, ['resize 0 16 1', 'resize 0 16 1'] + ins(0, range(8)) + ['resize 0 4 null', 'shrink 0', 'shrink 0'] +
+             look(0) + ['resize 0 2 2', 'find 0 7 null', 'shrink 0'] + look(0) + ['resize 0 1 null', 'shrink 0'] + look(0) + ['clear 0 1']),
+    ]
+    if tier != 'quick':
+        for c in gen_random(seed, 40, 'C16'):
+            c.header = [h for h in c.header if h.split()[0] not in ('fail', 'failfrom')]
+            cases.append(c)
+    return cases
+
+
+def alloc_requests(trace_lines):
+    """Number of allocation requests (numbered by the failure injection) in a
+    trace: events 1/2 (malloc ok/failed) and 3/4 (realloc ok/failed)."""
+    n = 0
+    for line in trace_lines:
+        L = parse_line(line) if line.startswith('ok') else None
+        if L:
+            n += sum(1 for e in L.events if e and e[0] in (1, 2, 3, 4))
+    return n
